@@ -16,9 +16,11 @@ Record vm := mkvm { v_id : N; v_it : N; v_procs : list N }.
 Record sys := mksys {
   s_env : penv;                        (* the pool and the cloud's answers to Create *)
   s_vms : list vm;
-  s_probes : list (probe0 * presp);    (* probes whose crunch-run --list has answered but which are not applied yet *)
-  s_gates : list (N * N)               (* start commands in flight: (instance, uuid) *)
+  s_probes : list (probe0 * presp)     (* probes whose crunch-run --list has answered but which are not applied yet *)
 }.
+(* Start commands in flight are not a separate component: uuid u is in `starting` of worker id exactly
+   from StartContainer until the command returns ([LLands]); the creation of the crunch-run process and
+   the return of the command are one atomic step of this model. *)
 
 Inductive label :=
 | LSched (sorted : list ent)                            (* a runQueue pass over an arbitrary sorted queue *)
@@ -54,7 +56,7 @@ Definition memNN (x : N * N) (l : list (N * N)) : bool :=
   existsb (fun y => N.eqb (fst x) (fst y) && N.eqb (snd x) (snd y)) l.
 
 Definition set_pool (s : sys) (p : wpool) : sys :=
-  mksys (mkpe p (pe_next (s_env s)) (pe_create (s_env s))) (s_vms s) (s_probes s) (s_gates s).
+  mksys (mkpe p (pe_next (s_env s)) (pe_create (s_env s))) (s_vms s) (s_probes s).
 Definition spool (s : sys) : wpool := pe_pool (s_env s).
 
 (* is there a process of u on a VM the pool knows nothing about (no worker, or worker still Unknown)? *)
@@ -79,18 +81,20 @@ Definition step (c : cfg) (l : label) (s : sys) : option sys :=
          assumption that its timeout does not expire first. *)
       if existsb (undiscovered s) (started_uuids (r_log res)) then None
       else
-        let newb := filter (fun x => negb (memNN x (allbook p))) (allbook (pe_pool e')) in
         (* A6: an instance created by this pass is a fresh VM without processes *)
         let newvms := map (fun w => mkvm (w_id w) (w_it w) [])
                           (filter (fun w => match find_w (w_id w) (p_workers p) with None => true | Some _ => false end)
                                   (p_workers (pe_pool e'))) in
-        Some (mksys e' (s_vms s ++ newvms) (s_probes s) (s_gates s ++ newb))
+        Some (mksys e' (s_vms s ++ newvms) (s_probes s))
   | LLands id u ok =>
-      if negb (memNN (id, u) (s_gates s)) then None
-      else
-        let gates := filter (fun x => negb (N.eqb (fst x) id && N.eqb (snd x) u)) (s_gates s) in
-        let vms := if ok then set_procs id (fun l => u :: l) (s_vms s) else s_vms s in
-        Some (mksys (mkpe (start_lands id u p) (pe_next (s_env s)) (pe_create (s_env s))) vms (s_probes s) gates)
+      match find_w id (p_workers p) with
+      | None => None
+      | Some w =>
+          if negb (memN u (map ru (w_starting w))) then None     (* no start command for u in flight on id *)
+          else
+            let vms := if ok then set_procs id (fun l => u :: l) (s_vms s) else s_vms s in
+            Some (mksys (mkpe (start_lands id u p) (pe_next (s_env s)) (pe_create (s_env s))) vms (s_probes s))
+      end
   | LProbeBegin id boot lok broken stale =>
       match find_vm id (s_vms s) with
       | None => None
@@ -101,7 +105,7 @@ Definition step (c : cfg) (l : label) (s : sys) : option sys :=
           else match probe_begin id p with
                | (None, p') => Some (set_pool s p')
                | (Some pb, p') =>
-                   Some (mksys (mkpe p' (pe_next (s_env s)) (pe_create (s_env s))) (s_vms s) ((pb, r) :: s_probes s) (s_gates s))
+                   Some (mksys (mkpe p' (pe_next (s_env s)) (pe_create (s_env s))) (s_vms s) ((pb, r) :: s_probes s))
                end
       end
   | LProbeEnd id =>
@@ -120,14 +124,14 @@ Definition step (c : cfg) (l : label) (s : sys) : option sys :=
             | _, _, _ => false
             end in
           if bad then None
-          else Some (mksys (mkpe p' (pe_next (s_env s)) (pe_create (s_env s))) (s_vms s) rest (s_gates s))
+          else Some (mksys (mkpe p' (pe_next (s_env s)) (pe_create (s_env s))) (s_vms s) rest)
       end
-  | LProcExit id u => Some (mksys (s_env s) (set_procs id (remove_one u) (s_vms s)) (s_probes s) (s_gates s))
+  | LProcExit id u => Some (mksys (s_env s) (set_procs id (remove_one u) (s_vms s)) (s_probes s))
   | LKill u => Some (set_pool s (snd (pool_kill u p)))
   | LKillDelivered id u =>
       (* a successful kill means the process is gone *)
       Some (mksys (mkpe (kill_delivered id u p) (pe_next (s_env s)) (pe_create (s_env s)))
-                  (set_procs id (fun l => filter (fun x => negb (N.eqb x u)) l) (s_vms s)) (s_probes s) (s_gates s))
+                  (set_procs id (fun l => filter (fun x => negb (N.eqb x u)) l) (s_vms s)) (s_probes s))
   | LGiveUp id u => Some (set_pool s (give_up c id u p))
   | LForget u => Some (set_pool s (pool_forget u p))
   | LSetIB id b => Some (set_pool s (pool_set_ib c id b p))
@@ -139,11 +143,10 @@ Definition step (c : cfg) (l : label) (s : sys) : option sys :=
       Some (set_pool s (pool_sync c listed p))
   | LVMGone id =>
       (* A1: when an instance is gone its processes are gone (and commands to it fail) *)
-      Some (mksys (s_env s) (filter (fun v => negb (N.eqb (v_id v) id)) (s_vms s)) (s_probes s)
-                  (filter (fun x => negb (N.eqb (fst x) id)) (s_gates s)))
+      Some (mksys (s_env s) (filter (fun v => negb (N.eqb (v_id v) id)) (s_vms s)) (s_probes s))
   | LRestart =>
       (* A5: probes and start commands of the old dispatcher die with it *)
-      Some (mksys (mkpe (empty_pool (p_clock p)) (pe_next (s_env s)) (pe_create (s_env s))) (s_vms s) [] [])
+      Some (mksys (mkpe (empty_pool (p_clock p)) (pe_next (s_env s)) (pe_create (s_env s))) (s_vms s) [])
   end.
 
 Fixpoint run (c : cfg) (ls : list label) (s : sys) : option sys :=
@@ -152,7 +155,8 @@ Fixpoint run (c : cfg) (ls : list label) (s : sys) : option sys :=
   | l :: r => match step c l s with Some s' => run c r s' | None => None end
   end.
 
-Definition init_sys (create : list N) : sys := mksys (mkpe (empty_pool 0) 1 create) [] [] [].
+Definition init_sys (create : list N) : sys := mksys (mkpe (empty_pool 0) 1 create) [] [].
 
-(* all live processes and all starts in flight, as a list of uuids *)
-Definition all_procs (s : sys) : list N := flat_map v_procs (s_vms s) ++ map snd (s_gates s).
+(* all live processes and all start commands in flight, as a list of uuids *)
+Definition all_procs (s : sys) : list N :=
+  flat_map v_procs (s_vms s) ++ flat_map (fun w => map ru (w_starting w)) (p_workers (spool s)).
